@@ -179,10 +179,13 @@ def members_text(members, label):
 
 
 def aggregate_a(viols):
-    """[(case, (clause, label, member, detail))] -> [(clause, witness, history, detail)]: one
-    signature per (clause, rule label); the witness lists every entry/kind that breaks the rule, so
-    a change of that set is a different signature (nothing hides behind a known finding)."""
+    """[(case, (clause, label, member, detail))] -> [(clause, witness, history, detail)].
+    One signature per (clause, rule label).  The witness is the rule label plus the FIRST failing
+    entry point / kind in the fixed order of ENTRIES x KINDS (simplest form first); every other
+    failing member is listed in the detail only, so the signature does not move when another
+    defect is repaired or the lattice grows."""
     order = {F.cfg_key(c): i for i, c in enumerate(F.all_switch_configs())}
+    kinds = list(F.KINDS) + ["*"]
     groups = {}
     for case, (clause, label, member, detail) in viols:
         g = groups.setdefault((clause, label), {})
@@ -191,11 +194,10 @@ def aggregate_a(viols):
             g[member] = (rank, case, detail)
     out = []
     for (clause, label), g in sorted(groups.items()):
-        text = members_text(g.keys(), label)
-        cases = [g[m][1] for m in sorted(g)]
-        first = min(g.values(), key=lambda t: (t[0], t[2]["entry"], t[2]["kind"]))
-        out.append((clause, f"{label}|at:{text}", {"part": "A", "cases": cases},
-                    dict(first[2], failing_members=len(g))))
+        first = min(g, key=lambda m: (ENTRIES.index(m.split("/")[0]), kinds.index(m.split("/")[1])))
+        _, case, detail = g[first]
+        out.append((clause, f"{label}|first-at:{first}", {"part": "A", "cases": [case]},
+                    dict(detail, failing_members=len(g), all_failing=members_text(g.keys(), label))))
     return out
 
 
